@@ -235,7 +235,7 @@ Definition spec_reshape (ς : sstate) (t : nat) (dims : list Z) (refused : bool)
 (* --- operation options (C07): where the values [vs] of an operation whose first tensor operand is
    [ta] are delivered.  mode 0 = safe (fresh tensor), 1 = unsafe (into ta, returns ta),
    2 = reuse r (into r, which takes the result shape), 3 = incr r (added into r) --- *)
-Definition spec_deliver (add : V -> V -> V) (ς : sstate) (ta : nat) (rshape : list Z) (vs : list V)
+Definition spec_deliver_gen (keep_soft : bool) (add : V -> V -> V) (ς : sstate) (ta : nat) (rshape : list Z) (vs : list V)
            (mode : Z) (r : nat) (fresh_cm : bool) : option (sstate * nat) :=
   if mode =? 0 then
     let '(ς1, cells) := s_alloc ς vs in
@@ -256,12 +256,14 @@ Definition spec_deliver (add : V -> V -> V) (ς : sstate) (ta : nat) (rshape : l
          are left to the Reshape rule and not specified here) *)
       if s_cm x && negb (shape_eq (s_shape x) rshape) then None else
       (* vectors (n), (n,1), (1,n) count as the same shape: such a destination keeps its own *)
-      let x' := mkSten (if shape_eq (s_shape x) rshape then s_shape x else rshape)
+      let x' := mkSten (if keep_soft && shape_eq (s_shape x) rshape then s_shape x else rshape)
                        (s_cells x) None 0 (s_view x) (s_cm x) in
       let vals := if mode =? 2 then vs
                   else map (fun p => add (nth (fst p) (s_vals ς) vzero) (snd p)) (combine (s_cells x) vs) in
       Some (sset (mkSS (write_cells (s_vals ς) (s_cells x) vals) (s_tens ς)) r x', r)
     end.
+
+Definition spec_deliver := spec_deliver_gen true.
 
 Fixpoint map2 {A B C} (f : A -> B -> C) (a : list A) (b : list B) : list C :=
   match a, b with x :: a', y :: b' => f x y :: map2 f a' b' | _, _ => [] end.
@@ -397,5 +399,46 @@ Definition spec_repeat_vals (ς : sstate) (x : sten) (axis : Z) (reps : list Z) 
   let ax := Z.to_nat axis in
   let sh := upd (s_shape x') ax (sumz reps') in
   Some (sh, map (fun c => val_at ς x' (upd c ax (rep_src reps' (znth 0 c axis) 0))) (coords sh)).
+
+(* --- linear algebra (C09): the textbook sums of products on logical contents --- *)
+Definition vec_vals (ς : sstate) (x : sten) : list V := slogical ς x.
+
+Definition spec_matmul_vals (add mul : V -> V -> V) (ς : sstate) (a b : sten) : option (list Z * list V) :=
+  match s_shape a, s_shape b with
+  | [m; k], [k'; n] =>
+    if negb (k =? k') then None else
+    Some ([m; n],
+          map (fun c => match c with
+                        | [i; j] => fold_left add (map (fun l => mul (val_at ς a [i; l]) (val_at ς b [l; j])) (zseq 0 (Z.to_nat k))) vzero
+                        | _ => vzero end) (coords [m; n]))
+  | _, _ => None
+  end.
+
+Definition spec_matvec_vals (add mul : V -> V -> V) (ς : sstate) (a b : sten) : option (list Z * list V) :=
+  match s_shape a with
+  | [m; n] =>
+    if negb (is_vector (s_shape b)) || negb (size (s_shape b) =? n) then None else
+    let x := vec_vals ς b in
+    Some ([m], map (fun i => fold_left add (map (fun j => mul (val_at ς a [i; j]) (znth vzero x j)) (zseq 0 (Z.to_nat n))) vzero)
+                   (zseq 0 (Z.to_nat m)))
+  | _ => None
+  end.
+
+Definition spec_outer_vals (mul : V -> V -> V) (ς : sstate) (a b : sten) : option (list Z * list V) :=
+  if negb (is_vector (s_shape a)) || negb (is_vector (s_shape b)) then None else
+  let x := vec_vals ς a in let y := vec_vals ς b in
+  Some ([zlen x; zlen y], flat_map (fun xi => map (fun yj => mul xi yj) y) x).
+
+Definition spec_inner_val (add mul : V -> V -> V) (ς : sstate) (a b : sten) : option V :=
+  if negb (is_vector (s_shape a)) || negb (is_vector (s_shape b)) then None else
+  let x := vec_vals ς a in let y := vec_vals ς b in
+  if negb (length x =? length y)%nat then None else
+  Some (fold_left add (map (fun p => mul (fst p) (snd p)) (combine x y)) vzero).
+
+Definition spec_trace_val (add : V -> V -> V) (ς : sstate) (a : sten) : option V :=
+  match s_shape a with
+  | [r; c] => Some (fold_left add (map (fun i => val_at ς a [i; i]) (zseq 0 (Z.to_nat (Z.min r c)))) vzero)
+  | _ => None
+  end.
 
 End Spec.
